@@ -11,7 +11,7 @@ RULE = ("every fixture / corpus / generated program inside the modelled syntax i
 def body(ctx):
     n = 300 if ctx.tier == "quick" else 5000
     outdir, meta = ctx.harness("c14", n)
-    ctx.correspond(outdir, nontrivial_tag=lambda t: "diagnostics" in t)
+    ctx.correspond(outdir, nontrivial_tag=lambda t: "diagnostics" in t, shrink_group="c14")
     ctx.notes.append(f"renamed names: {ctx.stats.get('renamed_names', 0)}, to names longer than 32 bytes: {ctx.stats.get('rename_to_long_name', 0)}, "
                      f"library-root spellings that were script-bound: {ctx.stats.get('renamed_name_is_library_root_but_script_bound', 0)}")
 
